@@ -80,7 +80,7 @@ def make_stub(name, contract, log, pysig=None):
             args = tuple(ba.arguments.values())
         for label, fm in contract.requires(*args):
             ok = CTX.require(fm if not isinstance(fm, bool) else z3.BoolVal(fm), f"callee-pre {name}: {label}")
-        log.append(name)
+        log.append((name, args))
         return contract.result(*args)
     stub.__name__ = name
     stub.vc_stub = True
